@@ -8,9 +8,17 @@ From Cctp Require Import Gen.GenLib Gen.Scan.
 (* ---------- C18: no source of nondeterminism in the state machine ---------- *)
 Definition known_readonly_vars : list string :=
   ["AttesterManagerKey"; "ModuleAddress"; "OwnerKey"; "PaddedModuleAddress"; "PauserKey"; "PendingOwnerKey"; "TokenControllerKey";
-   "remoteTokenNumBytes"; "zeroByteArray"].
+   "zeroByteArray"].
+(* package-level variables of a basic value type (remoteTokenNumBytes) are not listed: they change only through an assignment,
+   ++/-- or a pointer, and every such write to any package-level variable is listed in go_package_var_writes *)
+
+(* the keeper carries only its codec, logger, store service and the two dependency keepers: no memory of its own that could
+   outlive a dropped branch or differ between validators *)
+Definition known_keeper_fields : list string :=
+  ["Keeper.bank"; "Keeper.cdc"; "Keeper.fiattokenfactory"; "Keeper.logger"; "Keeper.storeService"; "msgServer.Keeper"].
 
 Lemma scan_clean :
   go_nondeterministic_imports = [] /\ go_goroutines_and_selects = [] /\ go_ranges_over_maps = [] /\ go_package_var_writes = [] /\
-  forallb (fun v => mem_str v known_readonly_vars) go_package_vars = true.
+  forallb (fun v => mem_str v known_readonly_vars) go_package_vars = true /\
+  forallb (fun v => mem_str v known_keeper_fields) go_keeper_reference_fields = true.
 Proof. vm_compute. repeat split; reflexivity. Qed.
